@@ -287,6 +287,20 @@ fn parse_statement(ast: &ast::Statement, context: &mut Context) -> TyperResult<V
                 }
             };
 
+            // The value of a label has to be an integer like the value that is switched on
+            if !matches!(
+                value,
+                ir::Constant::Bool(_)
+                    | ir::Constant::IntLiteral(_)
+                    | ir::Constant::Int32(_)
+                    | ir::Constant::UInt32(_)
+                    | ir::Constant::Int64(_)
+                    | ir::Constant::UInt64(_)
+                    | ir::Constant::Enum(_, _)
+            ) {
+                return Err(TyperError::IntegerTypeExpected(cond.location));
+            }
+
             let mut next = parse_statement(statement, context)?;
             next.insert(
                 0,
